@@ -260,7 +260,7 @@ type scenario struct {
 }
 
 var terminators = []string{"peer-close", "stream-error", "handler-error", "deadline", "transport-eof"}
-var forced = []string{"X1a", "X1b", "X2", "X3", "X4", "X5a", "X5b", "X5c", "X6", "X7", "X8", "X9"}
+var forced = []string{"X1a", "X1b", "X2", "X3", "X4", "X5a", "X5b", "X5c", "X6", "X7", "X8", "X9", "X10", "X11"}
 
 func run(c *core.Case) {
 	if c.Index < len(forced)*2 {
@@ -941,7 +941,131 @@ func runCloseDeadlineDuringLoop(c *core.Case, s2s bool) {
 	w.finish("peer-close", smp)
 }
 
+// runExtendedDeadline is scenario X10: the application sets a short close
+// deadline and then moves it far into the future; the peer keeps talking past
+// the first instant and then closes its stream.  Only the deadline in force
+// counts: Serve must end with the peer's closing tag, without error.
+func runExtendedDeadline(c *core.Case, s2s bool) {
+	smp := &sample{Kind: "X10", S2S: s2s, Terminator: "peer-close"}
+	c.Sample(smp)
+	w := newWorld(c, sess.Opts{S2S: s2s})
+	if w == nil {
+		return
+	}
+	for k, d := range []time.Duration{60 * time.Millisecond, time.Hour} {
+		e := w.h.begin("app", "setclosedeadline", "")
+		err := w.p.S.SetCloseDeadline(time.Now().Add(d))
+		w.h.end(e, fmt.Sprint(err), "")
+		if err != nil {
+			c.Notef("X10: SetCloseDeadline %d: %v", k, err)
+		}
+	}
+	// (the pause only shapes the workload - the first instant has to pass; the
+	// verdict below is Serve's return value, not a duration)
+	time.Sleep(150 * time.Millisecond)
+	w.p.Send("<message id='x10-a'><body>after the first instant</body></message>")
+	w.p.Send("<iq type='get' id='h-x10' from='peer@example.org/p'><q xmlns='urn:verif:c10'/></iq>")
+	c.Count("forced_scenarios", 1)
+	c.Count("close_deadline_extended_scenarios", 1)
+	w.terminate("peer-close")
+	w.finish("peer-close", smp)
+}
+
+// runQueuedBehindClose is scenario X11: Close is blocked writing the closing
+// tag to a transport whose writes wait for the reader; a transmit whose
+// context is already over queues behind it.  A context that belongs to a call
+// that does not hold the output stream must not touch the transport: Close
+// completes normally once the peer reads, and the queued call fails as closed.
+func runQueuedBehindClose(c *core.Case, s2s bool) {
+	smp := &sample{Kind: "X11", S2S: s2s, Terminator: "peer-close", Closers: 1}
+	c.Sample(smp)
+	w := newWorldLoop(c, sess.Opts{S2S: s2s}, false)
+	if w == nil {
+		return
+	}
+	p := w.p
+	buf := make([]byte, 4096)
+	p.Peer.SetReadDeadline(time.Now().Add(20 * time.Second))
+	if _, err := p.Peer.Read(buf); err != nil {
+		c.Inconclusive("X11: cannot read the library's header: %v", err)
+		return
+	}
+	p.Peer.SetReadDeadline(time.Time{})
+	p.Lib.SetSyncWrites(true)
+	closed := make(chan struct{})
+	var closeErr error
+	go func() {
+		defer close(closed)
+		e := w.h.begin("closer1", "close", "")
+		c.Guard("Close", func() { closeErr = p.S.Close() })
+		w.closed()
+		w.h.end(e, fmt.Sprint(closeErr), "")
+	}()
+	deadline := time.Now().Add(20 * time.Second)
+	for p.Lib.BlockedWrites() == 0 && time.Now().Before(deadline) {
+		time.Sleep(time.Millisecond)
+	}
+	if p.Lib.BlockedWrites() == 0 {
+		c.Inconclusive("X11: Close never reached the transport")
+		p.Peer.Close()
+		p.Lib.Close()
+		return
+	}
+	// transmits whose contexts are over queue behind the blocked Close
+	ctx, cancel := context.WithCancel(context.Background())
+	cancel()
+	var sw sync.WaitGroup
+	for _, name := range []string{"EncodeElement", "Encode", "Send", "SendElement"} {
+		for _, en := range entries {
+			if en.name != name {
+				continue
+			}
+			en := en
+			sw.Add(1)
+			go func() {
+				defer sw.Done()
+				m := "x11-" + en.name
+				e := w.h.begin("sender", "transmit:"+en.name, m)
+				var err error
+				c.Guard(en.name, func() { err = en.do(ctx, p.S, m) })
+				out, d := classifyErr(err)
+				w.h.end(e, out, d)
+			}()
+		}
+	}
+	// give the queued calls the chance to do whatever they do before they have
+	// the lock; Close must still be blocked (nobody reads yet)
+	select {
+	case <-closed:
+	case <-time.After(200 * time.Millisecond):
+	}
+	p.Lib.SetSyncWrites(false)
+	go io.Copy(io.Discard, readerUntilClosed{p.Peer})
+	<-closed
+	sw.Wait()
+	if closeErr != nil {
+		c.Violate("close:failed-on-healthy-transport", "Close was writing the closing tag to a slow but healthy peer and returned %v: something else armed the transport's write deadline while Close held the output stream", closeErr)
+	}
+	c.Count("forced_scenarios", 1)
+	c.Count("transmits_queued_behind_blocked_close_scenarios", 1)
+	w.terminate("peer-close")
+	w.finish("peer-close", smp)
+}
+
+// readerUntilClosed reads the peer end so that the library's writes complete.
+type readerUntilClosed struct{ c *bufconn.Conn }
+
+func (r readerUntilClosed) Read(p []byte) (int, error) { return r.c.Read(p) }
+
 func runForced(c *core.Case, id string, s2s bool) {
+	if id == "X10" {
+		runExtendedDeadline(c, s2s)
+		return
+	}
+	if id == "X11" {
+		runQueuedBehindClose(c, s2s)
+		return
+	}
 	if id == "X6" {
 		runSyncTransport(c, s2s)
 		return
@@ -1198,7 +1322,7 @@ func Prop() *core.Prop {
 		Level: core.Exploration,
 		Race:  true,
 		Units: "porcupine_ops", // operations (close, transmit, Serve) placed by the checker
-		Rule:  "the first 24 cases are the forced scenarios X1a/X1b/X2/X3/X4 (orderings at the close.enter / senderr.enter yield points) X5a/X5b/X5c (the transport fails, entirely, after 5 bytes, or with a short write of 5 bytes, exactly on the write of the closing tag) and X6 (a transport with synchronous writes in both directions: Close blocked on the closing tag while the peer sends two more stanzas before reading) and X7 (a sender's context ends during its write and the write-deadline helper is parked at wdl.armed while the handler answers a peer IQ) and X8 (SetCloseDeadline replaces the input context while the serve loop is parked at serve.loop holding the old one) and X9 (a Close and the serve loop's default reply to an unanswered IQ both queue behind a token writer the application holds in mid-element), each c2s and s2s; the rest are stress histories on one served session (a third of them on a layered transport: a plain io.ReadWriter around the connection installed during negotiation, deadlines proxied): 0-3 closers (1-3 Close calls each, sometimes SetCloseDeadline), 1-4 senders drawing from 13 transmit entry points, peer-injected IQs answered by the handler or left to the session's default reply, and one terminator from {peer close tag, peer stream error, handler error, silence + 50 ms close deadline, end of the connection without a closing tag} issued early or after the actors; afterwards every entry point is called once more on the closed session. Oracles: closing-tag count and bytes after it on the peer side; porcupine check of the recorded history against a two-state closable-log model; marker-on-wire side conditions; State()/TokenReader after Serve; Serve's return per terminator. Distinct = (kind, terminator, closers, some transmit overlapped a Close?, some transmit began after a Close returned?, tags) and the observed interleaving of each history: the logical-clock order of the call/return boundaries of every explicit Close (C) and of Serve's own shutdown (S), with the transmits classified as before / overlapping / after the closes and by outcome (signatures order/…).",
+		Rule:  "the first 28 cases are the forced scenarios X1a/X1b/X2/X3/X4 (orderings at the close.enter / senderr.enter yield points) X5a/X5b/X5c (the transport fails, entirely, after 5 bytes, or with a short write of 5 bytes, exactly on the write of the closing tag) and X6 (a transport with synchronous writes in both directions: Close blocked on the closing tag while the peer sends two more stanzas before reading) and X7 (a sender's context ends during its write and the write-deadline helper is parked at wdl.armed while the handler answers a peer IQ) and X8 (SetCloseDeadline replaces the input context while the serve loop is parked at serve.loop holding the old one) and X9 (a Close and the serve loop's default reply to an unanswered IQ both queue behind a token writer the application holds in mid-element) and X10 (a short close deadline replaced by a distant one, traffic past the first instant, then the peer's closing tag) and X11 (transmits whose contexts are over queue behind a Close that is blocked writing the closing tag to a slow peer), each c2s and s2s; the rest are stress histories on one served session (a third of them on a layered transport: a plain io.ReadWriter around the connection installed during negotiation, deadlines proxied): 0-3 closers (1-3 Close calls each, sometimes SetCloseDeadline), 1-4 senders drawing from 13 transmit entry points, peer-injected IQs answered by the handler or left to the session's default reply, and one terminator from {peer close tag, peer stream error, handler error, silence + 50 ms close deadline, end of the connection without a closing tag} issued early or after the actors; afterwards every entry point is called once more on the closed session. Oracles: closing-tag count and bytes after it on the peer side; porcupine check of the recorded history against a two-state closable-log model; marker-on-wire side conditions; State()/TokenReader after Serve; Serve's return per terminator. Distinct = (kind, terminator, closers, some transmit overlapped a Close?, some transmit began after a Close returned?, tags) and the observed interleaving of each history: the logical-clock order of the call/return boundaries of every explicit Close (C) and of Serve's own shutdown (S), with the transmits classified as before / overlapping / after the closes and by outcome (signatures order/…).",
 		Assumptions: []string{
 			"a transmit that overlaps a Close in time may land on either side of the closing tag",
 			"handler replies are buffered until the handler returns, so their on-wire side condition is not demanded; their error value is",
@@ -1212,7 +1336,7 @@ func Prop() *core.Prop {
 			return len(forced)*2 + 70
 		},
 		Run: run,
-		Require: []string{"forced_scenarios", "stress_histories", "close_under_write_fault", "close_returns_with_wire_snapshot", "synchronous_transport_closes", "cancelled_sender_deadline_scenarios", "close_deadline_during_loop_scenarios", "close_vs_default_reply_scenarios", "unanswered_iqs_injected", "x9_close_queued_behind_writer", "x9_default_reply_queued_behind_writer", "layered_transport_histories", "layered_transport_close_deadline", "yield:close.enter", "yield:senderr.enter", "transmits_overlapping_a_close",
+		Require: []string{"forced_scenarios", "stress_histories", "close_under_write_fault", "close_returns_with_wire_snapshot", "synchronous_transport_closes", "cancelled_sender_deadline_scenarios", "close_deadline_during_loop_scenarios", "close_vs_default_reply_scenarios", "close_deadline_extended_scenarios", "transmits_queued_behind_blocked_close_scenarios", "unanswered_iqs_injected", "x9_close_queued_behind_writer", "x9_default_reply_queued_behind_writer", "layered_transport_histories", "layered_transport_close_deadline", "yield:close.enter", "yield:senderr.enter", "transmits_overlapping_a_close",
 			"transmits_begun_after_a_close_returned", "late_transmits", "porcupine_checks",
 			"serve_returned:peer-close", "serve_returned:stream-error", "serve_returned:handler-error", "serve_returned:deadline", "serve_returned:transport-eof"},
 		ReplayRepeats: 10,
